@@ -42,6 +42,7 @@ DocBounds ==
     adobe |-> << Unit, Unit, Unit >>, linadobe |-> << Unit, Unit, Unit >>,
     p3 |-> << Unit, Unit, Unit >>, linp3 |-> << Unit, Unit, Unit >>,
     rec2020 |-> << Unit, Unit, Unit >>, linrec2020 |-> << Unit, Unit, Unit >>, rec709 |-> << Unit, Unit, Unit >>,
+    hsv_linsrgb |-> << Free, Unit, Unit >>, hsl_linsrgb |-> << Free, Unit, Unit >>, hwb_rec709 |-> << Free, Unit, Unit >>,
     hsv_adobe |-> << Free, Unit, Unit >>, hsl_p3 |-> << Free, Unit, Unit >>, hwb_rec2020 |-> << Free, Unit, Unit >>,
     xyz50    |-> << <<Q(0, 1), Q(96422, 100000)>>, Unit, <<Q(0, 1), Q(82521, 100000)>> >>,
     lab50    |-> << <<Q(0, 1), Q(100, 1)>>, <<Q(-128, 1), Q(127, 1)>>, <<Q(-128, 1), Q(127, 1)>> >>,
@@ -56,7 +57,8 @@ NodeNames == DOMAIN DocBounds
 NComp(node) == Len(DocBounds[node])
 (* index of the hue component, 0 if none *)
 HueIdx(node) == CASE node \in {"lch", "lchuv", "oklch", "lch50"} -> 3
-                  [] node \in {"hsluv", "okhsl", "okhsv", "okhwb", "hsl", "hsv", "hwb", "hsv_adobe", "hsl_p3", "hwb_rec2020", "hsv_prophoto"} -> 1
+                  [] node \in {"hsluv", "okhsl", "okhsv", "okhwb", "hsl", "hsv", "hwb", "hsv_adobe", "hsl_p3", "hwb_rec2020", "hsv_prophoto",
+                             "hsv_linsrgb", "hsl_linsrgb", "hwb_rec709"} -> 1
                   [] OTHER -> 0
 
 (* Upper bounds that the documentation gives as guidance only and that the type's contract does not
